@@ -211,10 +211,28 @@ type heldDoc struct {
 	snap string
 }
 
+type heldVal struct {
+	what string
+	v    interface{}
+	snap string
+}
+
 type holder struct {
 	mu   sync.Mutex
 	list []held
 	docs []heldDoc
+	vals []heldVal
+}
+
+// keepVal holds a returned result structure together with its present JSON rendering.
+func (hd *holder) keepVal(what string, v interface{}) {
+	if hd == nil || v == nil || reflect.ValueOf(v).IsNil() {
+		return
+	}
+	b, _ := json.Marshal(v)
+	hd.mu.Lock()
+	hd.vals = append(hd.vals, heldVal{what, v, string(b)})
+	hd.mu.Unlock()
 }
 
 // keepDoc holds a returned document (not yet serialised by its caller) together with its present rendering.
@@ -249,6 +267,11 @@ func (hd *holder) changed() string {
 	for _, x := range hd.docs {
 		if s, _ := x.d.WriteToString(); s != x.snap {
 			return x.what + "-document"
+		}
+	}
+	for _, x := range hd.vals {
+		if b, _ := json.Marshal(x.v); string(b) != x.snap {
+			return x.what + "-result"
 		}
 	}
 	return ""
@@ -349,6 +372,7 @@ func (op C17Op) runHold(sp *saml2.SAMLServiceProvider, hd *holder) string {
 		if err != nil {
 			return "error: " + err.Error()
 		}
+		hd.keepVal(op.Kind, md)
 		b, _ := xml.Marshal(md)
 		return string(b)
 	case "metadata-slo":
@@ -361,6 +385,9 @@ func (op C17Op) runHold(sp *saml2.SAMLServiceProvider, hd *holder) string {
 	case "validate":
 		r, err := sp.ValidateEncodedResponse(in)
 		s := resultString(r, err)
+		if !op.Mut {
+			hd.keepVal(op.Kind, r)
+		}
 		if op.Mut && r != nil {
 			// mutating a returned result must not affect later results
 			r.ID = "mutated"
@@ -375,6 +402,9 @@ func (op C17Op) runHold(sp *saml2.SAMLServiceProvider, hd *holder) string {
 	case "retrieve":
 		r, err := sp.RetrieveAssertionInfo(in)
 		s := resultString(r, err)
+		if !op.Mut {
+			hd.keepVal(op.Kind, r)
+		}
 		if op.Mut && r != nil {
 			r.NameID = "mutated"
 			for k := range r.Values {
@@ -388,12 +418,16 @@ func (op C17Op) runHold(sp *saml2.SAMLServiceProvider, hd *holder) string {
 	case "logout-validate-req":
 		r, err := sp.ValidateEncodedLogoutRequestPOST(in)
 		s := resultString(r, err)
+		if !op.Mut {
+			hd.keepVal(op.Kind, r)
+		}
 		if op.Mut && r != nil && r.Issuer != nil {
 			r.Issuer.Value = "mutated"
 		}
 		return s
 	case "logout-validate-resp":
 		r, err := sp.ValidateEncodedLogoutResponsePOST(in)
+		hd.keepVal(op.Kind, r)
 		return resultString(r, err)
 	case "decode-base":
 		r, err := saml2.DecodeUnverifiedBaseResponse(in)
